@@ -39,6 +39,7 @@ import (
 
 	"github.com/containerd/nri/pkg/api"
 	"google.golang.org/protobuf/encoding/prototext"
+	"google.golang.org/protobuf/encoding/protowire"
 	"google.golang.org/protobuf/proto"
 	"google.golang.org/protobuf/reflect/protoreflect"
 	"google.golang.org/protobuf/reflect/protoregistry"
@@ -82,6 +83,47 @@ type C12Fld struct {
 
 type C12Msg struct {
 	F []C12Fld `json:"f,omitempty"`
+	// U: well-formed unknown fields of this message (numbers the message type does not
+	// define, e.g. sent by a peer built against a newer protocol), in wire order.
+	U []C12Unk `json:"u,omitempty"`
+}
+
+// C12Unk is one unknown field: W = "varint" (V), "fixed32" (V), "fixed64" (V) or "bytes"
+// (X, repeated R times when R > 1).
+type C12Unk struct {
+	Num int32  `json:"num"`
+	W   string `json:"w"`
+	V   uint64 `json:"v,omitempty"`
+	X   []byte `json:"x,omitempty"`
+	R   int    `json:"r,omitempty"`
+}
+
+// c12UnknownBytes renders the unknown fields of a tree node as wire data, or returns an
+// error if one of them is not a legal unknown field of md.
+func c12UnknownBytes(md protoreflect.MessageDescriptor, us []C12Unk) ([]byte, error) {
+	var b []byte
+	for _, u := range us {
+		n := protoreflect.FieldNumber(u.Num)
+		if u.Num < 1 || u.Num > 536870911 || (u.Num >= 19000 && u.Num <= 19999) {
+			return nil, fmt.Errorf("message %s: %d is not a usable field number", md.FullName(), u.Num)
+		}
+		if md.Fields().ByNumber(n) != nil {
+			return nil, fmt.Errorf("message %s: field number %d is not unknown", md.FullName(), u.Num)
+		}
+		switch u.W {
+		case "varint":
+			b = protowire.AppendVarint(protowire.AppendTag(b, n, protowire.VarintType), u.V)
+		case "fixed32":
+			b = protowire.AppendFixed32(protowire.AppendTag(b, n, protowire.Fixed32Type), uint32(u.V))
+		case "fixed64":
+			b = protowire.AppendFixed64(protowire.AppendTag(b, n, protowire.Fixed64Type), u.V)
+		case "bytes":
+			b = protowire.AppendBytes(protowire.AppendTag(b, n, protowire.BytesType), c12Bytes(C12Val{X: u.X, R: u.R}))
+		default:
+			return nil, fmt.Errorf("message %s: unknown field %d has unsupported wire type %q", md.FullName(), u.Num, u.W)
+		}
+	}
+	return b, nil
 }
 
 // C12Step is one step of a history over ONE message object: an encoder/decoder call on
@@ -302,6 +344,13 @@ func c12Fill(m protoreflect.Message, tree *C12Msg, bi *c12BuildInfo) error {
 			bi.emptyFallback++
 		}
 	}
+	if len(tree.U) > 0 {
+		raw, err := c12UnknownBytes(md, tree.U)
+		if err != nil {
+			return err
+		}
+		m.SetUnknown(raw)
+	}
 	return nil
 }
 
@@ -384,6 +433,8 @@ type c12Stats struct {
 	longBy                                 map[string]bool
 	subEmptyDeep, subEmptyDeep3, elemEmpty int
 	multiList, multiMsgList                int
+	unkRoot, unkNested, unkLong, unkMaxNum int
+	unkWire                                map[string]bool
 }
 
 func c12IsZero(fd protoreflect.FieldDescriptor, v C12Val) bool {
@@ -477,6 +528,23 @@ func c12ScalarStats(fd protoreflect.FieldDescriptor, v C12Val, st *c12Stats, ctx
 func c12Walk(md protoreflect.MessageDescriptor, tree *C12Msg, depth int, st *c12Stats) {
 	if depth > st.depth {
 		st.depth = depth
+	}
+	for _, u := range tree.U {
+		if depth == 0 {
+			st.unkRoot++
+		} else {
+			st.unkNested++
+		}
+		if st.unkWire == nil {
+			st.unkWire = map[string]bool{}
+		}
+		st.unkWire[u.W] = true
+		if u.W == "bytes" && len(u.X)*max(u.R, 1) >= 128 {
+			st.unkLong++
+		}
+		if u.Num == 536870911 {
+			st.unkMaxNum++
+		}
 	}
 	// non-empty repeated fields of this message, by element type
 	var elemTypes map[string]int
@@ -616,6 +684,15 @@ func c12Classes(origin string, tree *C12Msg, ty c12Type) ([]string, bool) {
 	add(st.subEmptyDeep, "sub_empty_depth>=2")
 	add(st.subEmptyDeep3, "sub_empty_depth>=4")
 	add(st.elemEmpty, "list_elem_empty")
+	add(st.unkRoot, "unknown:root")
+	add(st.unkNested, "unknown:nested")
+	add(st.unkLong, "unknown:long_bytes")
+	add(st.unkMaxNum, "unknown:max_field_number")
+	for _, w := range []string{"varint", "fixed32", "fixed64", "bytes"} {
+		if st.unkWire[w] {
+			cl = append(cl, "unknown:"+w)
+		}
+	}
 	add(st.multiList, "lists_same_elem_type>=2")
 	add(st.multiMsgList, "message_lists_same_elem_type>=2")
 	add(st.optSet, "opt_nonzero")
